@@ -170,6 +170,8 @@ impl SimConfig {
 
 #[derive(Clone, Debug, Serialize)]
 pub struct TraceEv {
+    /// global event sequence number at the grant (same counter as `Sim::tick`)
+    pub seq: u64,
     pub step: u64,
     pub task: usize,
     pub kind: OpKind,
@@ -335,6 +337,9 @@ impl Sim {
     pub fn set_faults(&self, faults: Vec<FaultSpec>) {
         self.lock().faults = faults;
     }
+    pub fn take_faults(&self) -> Vec<FaultSpec> {
+        std::mem::take(&mut self.lock().faults)
+    }
     pub fn clear_faults(&self) {
         self.lock().faults.clear();
     }
@@ -497,6 +502,7 @@ impl Sim {
         st.sig_full.add(st.clock.now_ms() as u64);
         if st.record_trace && st.trace.len() < 4000 {
             st.trace.push(TraceEv {
+                seq: st.event_seq,
                 step: st.step,
                 task,
                 kind,
